@@ -109,8 +109,8 @@ theorem C13_neg (s : State) (d : Nat) :
         · cases s.turn <;> simp
         · split
           · simp
-          · simp [hh]
-    · simp [hh]
+          · simp [hh, clampHeuristic_neg]
+    · simp [hh, clampHeuristic_neg]
 
 /-- **C13_neg**, arbitrary perspective. -/
 theorem C13_neg' (s : State) (c : Color) (d : Nat) :
